@@ -475,19 +475,19 @@ func (t *table) randArgs(r *rand.Rand) ([]sx.Sexp, sx.Sexp) {
 	return args, blk
 }
 
+// fitBlock: a block that can be called with every argument count the declared block type allows
 func fitBlock(r *rand.Rand, bt *btype) sx.Sexp {
 	if bt.any || r.Intn(5) == 0 {
 		return randBlock(r)
 	}
-	if bt.max == nil {
-		if r.Intn(2) == 0 {
-			return sx.T("b", sx.Int(*bt.min), sx.A("d"))
-		}
-		return sx.T("b", sx.Int(*bt.min+1), sx.Int(*bt.min+1))
+	lo := r.Int63n(*bt.min + 1)
+	if r.Intn(2) == 0 {
+		lo = *bt.min
 	}
-	lo := *bt.min + r.Int63n(*bt.max-*bt.min+1)
-	hi := lo + r.Int63n(*bt.max-lo+1)
-	return sx.T("b", sx.Int(lo), sx.Int(hi))
+	if bt.max == nil || r.Intn(4) == 0 {
+		return sx.T("b", sx.Int(lo), sx.A("d"))
+	}
+	return sx.T("b", sx.Int(lo), sx.Int(*bt.max+r.Int63n(2)))
 }
 
 func callLine(t *table, args []sx.Sexp, blk sx.Sexp) string {
